@@ -392,7 +392,7 @@ func init() {
 		Shards: shards(8, 16),
 		Meta: func(tier string) rt.Meta {
 			return rt.Meta{Level: "exploration", MinEvals: 2000, MinDistinct: 20,
-				Rule:        "twin MemFS instances P and P' with identical random trees and users; every call through V = P.Sub(dir) (dir in /, /w, /w/a, /w/a/b; one history in three through a nested view) is also issued on P' with the dir-prefixed absolute path as the same user and umask; outcome class and values must be equal and the full snapshots of P and P' must be equal after every call (which also shows that nothing outside dir moved). Parent-side calls are mixed in (visibility), per-view SetUser/SetUMask/Chdir are followed by isolation assertions on the parent and a sibling view. Path shapes: absolute, relative to the view's cwd, unclean, '.', '..'. Chdir through the view is also asked of the twin's counterpart view; the mode of the view's root is changed through the parent; user, umask and cwd of the parent itself are asserted unchanged at every step. Signature = actor | call kind | outcome; all non-trivial (random trees).",
+				Rule:        "twin MemFS instances P and P' with identical random trees and users; every call through V = P.Sub(dir) (dir in /, /w, /w/a, /w/a/b; one history in three through a nested view) is also issued on P' with the dir-prefixed absolute path as the same user and umask; outcome class and values must be equal and the full snapshots of P and P' must be equal after every call (which also shows that nothing outside dir moved). Parent-side calls are mixed in (visibility), per-view SetUser/SetUMask/Chdir are followed by isolation assertions on the parent and a sibling view. Path shapes: absolute, relative to the view's cwd, unclean, '.', '..'. Chdir through the view is also asked of the twin's counterpart view; the mode of the view's root is changed through the parent; user, umask and cwd of the parent itself are asserted unchanged at every step. Plus views whose root directory is removed together with an ancestor (RemoveAll through the parent or through an enclosing view): every probe through the view answers as the twin parent does for the prefixed path. Signature = actor | call kind | outcome; all non-trivial (random trees).",
 				Assumptions: []string{"symlink-free trees (as the property states)", "temp-name calls and Getwd/EvalSymlinks results are not compared"}}
 		},
 		Run: func(c *rt.Ctx) {
